@@ -62,6 +62,12 @@ def is_table(x):
     return isinstance(x, dict)
 
 
+def bp(bi, b):
+    """leaf-path prefix of block bi; a table marked {"like": "b0"} carries exactly the texts (and, where the format has one,
+    the position) of block 0: two DISTINCT source tables with identical content"""
+    return b.get("like", f"b{bi}") if isinstance(b, dict) else f"b{bi}"
+
+
 BASE_CELLS = ([], ["p"], ["p", "p"])
 INNER = (T([[["p"]]]), T([[["p"]], [["p"]]]), T([[["p"], ["p"]]]))
 
@@ -98,6 +104,10 @@ def docs(hdr_wrapper, nested=True):
         for b in small:
             out.append([a, b])
             out.append([a, "p", b])
+    # two DISTINCT tables with identical content (adjacent / separated by a paragraph): both must be returned
+    for a in small[:2]:
+        out.append([a, dict(a, like="b0")])
+        out.append([a, "p", dict(a, like="b0")])
     if nested:
         out.append([T([[[INNER[0]]]]), T([[["p"]]])])
         out.append([T([[["p"]]]), T([[["p", INNER[0]]]])])
@@ -109,6 +119,8 @@ def features(doc):
     tabs = [b for b in doc if is_table(b)]
     if len(tabs) > 1:
         f.add("adjacent")
+    if any("like" in t for t in tabs):
+        f.add("identical_tables")
 
     def tab(t, depth):
         if depth:
@@ -159,7 +171,7 @@ def tables_in_order(doc):
                         tab(it, f"{path}.r{ri}c{ci}i{ii}")
     for bi, b in enumerate(doc):
         if is_table(b):
-            tab(b, f"b{bi}")
+            tab(b, bp(bi, b))
     return out
 
 
@@ -447,7 +459,7 @@ def build_xml_tree(doc, root_tag, tags):
         return CNode(tags["table"], children=rows)
     blocks = []
     for bi, b in enumerate(doc):
-        blocks.append(table(b, f"b{bi}") if is_table(b) else leaf(tags["p"], txt(f"b{bi}")))
+        blocks.append(table(b, bp(bi, b)) if is_table(b) else leaf(tags["p"], txt(f"b{bi}")))
     return CNode(root_tag, children=blocks)
 
 
@@ -614,7 +626,7 @@ def html_leaves(doc):
                         out.append(txt(ip))
     for bi, b in enumerate(doc):
         if is_table(b):
-            tab(b, f"b{bi}")
+            tab(b, bp(bi, b))
         else:
             out.append(txt(f"b{bi}"))
     return out
@@ -676,7 +688,7 @@ def html_events(doc):
     ev.append(("s", "body"))
     for bi, b in enumerate(doc):
         if is_table(b):
-            table(b, f"b{bi}")
+            table(b, bp(bi, b))
         else:
             par("p", f"b{bi}")
     ev.append(("e", "body"))
@@ -812,6 +824,8 @@ def used_range(sh):
 
 
 def sheet_features(sh):
+    if isinstance(sh, dict):
+        return sorted(set(sheet_features(sh["rows"])) | {"identical_tables"})
     f = set()
     first = sh[0]
     if "N" in first:
@@ -908,6 +922,9 @@ def w_xlsx(repo, tier):
         return cell_terms(kind, i, j, i == 0)[2]
 
     def one(sh):
+        copies = 1
+        if isinstance(sh, dict):
+            copies, sh = sh["copies"], sh["rows"]
         st = State()
         rows = []
         for i, row in enumerate(sh):
@@ -918,13 +935,19 @@ def w_xlsx(repo, tier):
                 for a in asm:
                     st.assume(a)
             rows.append(VTuple(vals))
-        ws = VExt("Worksheet")
-        sheets[ws.t.get_id()] = VTuple(rows)
-        wb = VRef(st.alloc(HeapObj("dict", {"S": ws}, fresh=False), run.ex.refs))
-        rets, raises = run.call("_read_content_from_workbook", {"wb": wb, "sheet_names": VTuple([VStr("S")])}, st)
-        want = expected_sheet(sh, typed)
+        names = [f"S{k}" for k in range(copies)]
+        book = {}
+        for nm in names:                       # distinct sheets (objects, names) with identical content
+            ws = VExt("Worksheet")
+            sheets[ws.t.get_id()] = VTuple(rows)
+            book[nm] = ws
+        wb = VRef(st.alloc(HeapObj("dict", book, fresh=False), run.ex.refs))
+        rets, raises = run.call("_read_content_from_workbook", {"wb": wb, "sheet_names": VTuple([VStr(nm) for nm in names])}, st)
+        want = expected_sheet(sh, typed) * copies
         return [(s.pc, to_py(s, v), want) for (s, v) in rets], [(s.pc, e) for (s, e) in raises]
-    return run_sheets("C13/xlsx_extractor.py::_read_content_from_workbook", XLSX, sheet_shapes(("s", "N", "i"), ("s", "N", "i", "f", "b", "d")), one)
+    shapes = sheet_shapes(("s", "N", "i"), ("s", "N", "i", "f", "b", "d"))
+    shapes += [{"copies": 2, "rows": r} for r in ([["s", "s"], ["i", "s"]], [["s"], ["b"]], [["s", "s"]])]     # two sheets with identical content
+    return run_sheets("C13/xlsx_extractor.py::_read_content_from_workbook", XLSX, shapes, one)
 
 
 def w_xls(repo, tier):
@@ -938,7 +961,7 @@ def w_xls(repo, tier):
         common.install_bytesio(reg)
         reg.ext_models[("new", "io.StringIO")] = lambda ex, st, a, k, n: [(st, VExt("StringIO"))]
         reg.ext_models["xlrd.open_workbook"] = lambda ex, st, a, k, n: [(st, info["book"])]      # ASSUMED: the parsed workbook
-        reg.method_models[("XlBook", "sheets")] = lambda ex, st, o, a, k, n: [(st, VTuple([info["sheet"]]))]
+        reg.method_models[("XlBook", "sheets")] = lambda ex, st, o, a, k, n: [(st, VTuple(list(info["sheets"])))]
         reg.attr_models[("XlSheet", "name")] = lambda ex, st, o: VStr("S")
         reg.attr_models[("XlSheet", "nrows")] = lambda ex, st, o: VInt(len(info["cells"]))
         reg.attr_models[("XlSheet", "ncols")] = lambda ex, st, o: VInt(len(info["cells"][0]) if info["cells"] else 0)
@@ -963,6 +986,9 @@ def w_xls(repo, tier):
         return cell_terms(kind, i, j)[2]
 
     def one(sh):
+        copies = 1
+        if isinstance(sh, dict):
+            copies, sh = sh["copies"], sh["rows"]
         st = State()
         cells = []
         for i, row in enumerate(sh):
@@ -986,22 +1012,24 @@ def w_xls(repo, tier):
                 pack.CELLINFO[c.t.get_id()] = (VInt(KIND[k]), val, k)
                 cs.append(c)
             cells.append(cs)
-        info.update(book=VExt("XlBook"), sheet=VExt("XlSheet"), cells=cells)
+        info.update(book=VExt("XlBook"), sheets=[VExt("XlSheet") for _ in range(copies)], cells=cells)
         rets, raises = run.call("_read_content", {"file_like": VExt("BytesIO")}, st)
-        want = expected_sheet(sh, typed, trim=False)
+        want = expected_sheet(sh, typed, trim=False) * copies
         out = []
         for (s, v) in rets:
             sheets_ = run.ex.concrete_items(s, v) or []
-            tabs, states = [], [s]
-            if len(sheets_) != 1:
-                out.append((s.pc, ("?", "not one sheet"), want))
-                continue
-            r2, x2 = run2.call("XlsSheet.get_table", {"self": sheets_[0]}, s)
-            raises.extend(x2)
-            for (s2, t) in r2:
-                out.append((s2.pc, [to_py(s2, t)], want))
+            acc = [(s, [])]
+            for sheet_obj in sheets_:           # the table of every returned sheet, in order
+                nxt = []
+                for (s1, tabs) in acc:
+                    r2, x2 = run2.call("XlsSheet.get_table", {"self": sheet_obj}, s1)
+                    raises.extend(x2)
+                    nxt.extend((s2, tabs + [to_py(s2, t)]) for (s2, t) in r2)
+                acc = nxt
+            out.extend((s2.pc, tabs, want) for (s2, tabs) in acc)
         return out, [(s.pc, e) for (s, e) in raises]
     shapes = [sh for sh in sheet_shapes(("s", "N", "F"), ("s", "N", "F", "f", "b")) if used_range(sh) == (len(sh), len(sh[0]))]
+    shapes += [{"copies": 2, "rows": r} for r in ([["s", "s"], ["F", "s"]], [["s"], ["b"]])]     # two sheets with identical content
     return run_sheets("C13/xls_extractor.py::_read_content+XlsSheet.get_table", XLS, shapes, one)
 
 
@@ -1193,7 +1221,7 @@ def rtf_text(doc, row_sep, cell_prefix):
             defs = "".join(f"\\cellx{1500 * (i + 1)}" for i in range(len(r)))
             cells = ""
             for ci, c in enumerate(r):
-                pars = ["" if it == "e" else rtf_tok(f"b{bi}.r{ri}c{ci}i{ii}") for ii, it in enumerate(c) if not is_table(it)]
+                pars = ["" if it == "e" else rtf_tok(f"{bp(bi, b)}.r{ri}c{ci}i{ii}") for ii, it in enumerate(c) if not is_table(it)]
                 cells += cell_prefix + "\\par ".join(pars) + "\\cell"
             rows.append(f"\\trowd\\trgaph108{defs}{cells}\\row")
         out += row_sep.join(rows)
@@ -1204,7 +1232,8 @@ def rtf_text(doc, row_sep, cell_prefix):
 def rtf_docs():
     P = ["p"]
     return [[T([[P]])], [T([[P, P]])], [T([[P], [P]])], [T([[P, P], [P, P]])], [T([[P, P], [P, P], [P, P]])],
-            [T([[[], P], [P, []]])], [T([[["p", "p"], P]])], [T([[P]]), T([[P, P], [P, P]])], [T([[P], [P]]), "p", T([[P], [P]])], ["p", T([[P, P]])]]
+            [T([[[], P], [P, []]])], [T([[["p", "p"], P]])], [T([[P]]), T([[P, P], [P, P]])], [T([[P], [P]]), "p", T([[P], [P]])], ["p", T([[P, P]])],
+            [T([[P, P]]), dict(T([[P, P]]), like="b0")]]
 
 
 def w_rtf(repo, tier):
@@ -1233,7 +1262,7 @@ def w_rtf(repo, tier):
     for doc, (sep, pre) in my_part(cases):
         shape = {"doc": doc, "row_separator": sep, "cell_prefix": pre}
         feats = features(doc) + (["rows_back_to_back"] if sep == "" else [])
-        want = [[[z3.StringVal("\n".join("" if it == "e" else rtf_tok(f"b{bi}.r{ri}c{ci}i{ii}") for ii, it in enumerate(c) if not is_table(it)))
+        want = [[[z3.StringVal("\n".join("" if it == "e" else rtf_tok(f"{bp(bi, b)}.r{ri}c{ci}i{ii}") for ii, it in enumerate(c) if not is_table(it)))
                   for ci, c in enumerate(r)] for ri, r in enumerate(b["rows"])] for bi, b in enumerate(doc) if is_table(b)]
         try:
             st = State()
